@@ -24,6 +24,15 @@ CHECKS = {
         note="regex engine abstract (match matrix from CPython re); end-to-end use of the predicate is covered by C03",
         technique="Lean 4 theorems on hand-written model + differential correspondence with real build_filtering_func",
         design="§5 C08"),
+    "C09": dict(
+        text="Lean theorems for suite trees of any depth (mutual structural induction): every leaf appears once with "
+             "the nearest level/layer declaration on its path, defaults (1, unit layer); the level predicate, --all, "
+             "-u/-f/both and the child's --resume-layer selection as decision-logic theorems. Tied to the real "
+             "tests_from_suite, find_tests, get_options and Filter.global_setup on generated trees and option vectors; "
+             "the statement is monitored on the real results.",
+        note="regex engine abstract (C08); --all is bounded by sys.maxsize (KNOWN-FINDING D14)",
+        technique="Lean 4 theorems on hand-written model + differential correspondence with real discovery/filter code",
+        design="§5 C09"),
     "C10": dict(
         text="Lean theorems for every well-founded layer graph and every input list: result is duplicate-free with "
              "exactly the requested members, bases precede derived layers, the unit layer is first, and (for "
